@@ -312,6 +312,17 @@ func (store *HStore) GC(bucketID, beginChunkID, endChunkID, noGCDays int, merge,
 		return
 	}
 
+	// register the pass before it is started: the running-check above and the
+	// registration inside the goroutine left a window for a second request
+	store.gcMgr.mu.Lock()
+	if _, exists := store.gcMgr.stat[bkt]; exists {
+		store.gcMgr.mu.Unlock()
+		err = fmt.Errorf("gc on bkt: %d already running", bucketID)
+		return
+	}
+	store.gcMgr.stat[bkt] = &GCState{Begin: begin, End: end, Src: begin, Dst: begin}
+	store.gcMgr.mu.Unlock()
+
 	go store.gcMgr.gc(bkt, begin, end, merge)
 	return
 }
